@@ -415,6 +415,44 @@ def run_c15(tier, t0):
     return vlib.finish("C15", tier, rep, t0, CC_ASSUMPTIONS)
 
 
+def run_c09x(tier, rep):
+    """C09, compile-or-behave part: declarations whose valid set the macro cannot know (custom sanitizer next to
+    validators, predicate, regex, custom validation). Rejected -> fine. Accepted -> arbitrary() must be total and
+    yield only valid values on every probe input."""
+    with vlib.Lock():
+        out, doc = gen("C09X", tier, 4)
+        res, r1 = fixpoint(out, doc, "check")
+        res_b, r2 = fixpoint(out, doc, "build")
+        for cid, r in res_b.items():
+            if r["status"] == "rejected" and res[cid]["status"] == "accepted":
+                res[cid] = r
+        obs = run_probes(out, doc, res)
+    for c in doc["cases"]:
+        r = res[c["id"]]
+        rep["evaluations"] += 1
+        rep["states"] += 1
+        hist(rep, "compile-or-behave:%s:%s" % (c["kind"], r["status"]))
+        if r["status"] == "rejected":
+            if c["kind"] == "control":
+                rep["machinery_errors"].append("C09X control does not compile: %s: %s" % (c["text"][:120], r["errors"][0][1][:160]))
+            continue
+        o = obs.get(c["id"], {})
+        bad = None
+        for k, exp in enumerate(c["probes"]):
+            rep["evaluations"] += 1
+            rep["transitions"] += 1
+            inp, want = exp.split(" => ", 1)
+            got = o.get(k)
+            if got != want and bad is None:
+                bad = (inp, got)
+        rep["traces_validated_against_impl"] += len(c["probes"])
+        if bad:
+            cls = "panic:accepted-declaration" if bad[1] == "PANIC" else "invalid-value-produced"
+            rep["violation_count"] += 1
+            rep["violations"].append({"property": "C09", "subject": -1, "decl": c["text"], "shape": "compile-or-behave:%s" % c["class"], "entry": "Arbitrary", "input": bad[0], "expected": "declaration refused at compile time, or arbitrary() total and valid", "observed": "declaration accepted; arbitrary() on %s -> %s" % bad, "class": cls})
+    rep["notes"].append("compile-or-behave catalogue: %d declarations, fixpoint rounds %d/%d" % (len(doc["cases"]), r1, r2))
+
+
 CC_ASSUMPTIONS = [
     "rustc 1.95 (x86_64 host) accept/reject verdicts; errors attributed to the enclosing case module by span and confirmed by the remove-and-rebuild fixpoint",
     "REF's admissibility predicate (ntcore::admit) encodes the property's reject classes; grey-zone declarations are `either`",
@@ -424,7 +462,7 @@ CC_ASSUMPTIONS = [
 
 def setup():
     with vlib.Lock():
-        for variant, n in (("C02", 16), ("C05", 16), ("C08", 16), ("C15", 16), ("C15S", 16), ("C05N", 1), ("C08T", 1)):
+        for variant, n in (("C02", 16), ("C05", 16), ("C08", 16), ("C15", 16), ("C15S", 16), ("C05N", 1), ("C08T", 1), ("C09X", 4)):
             out, doc = gen(variant, "quick", n)
             # fetch + compile third-party dependencies once
             subprocess.run(["cargo", "check", "--offline", "-q"], cwd=out, env=vlib.env(), stdout=subprocess.DEVNULL, stderr=subprocess.DEVNULL)
